@@ -19,6 +19,11 @@
 // (descriptor closed / made read-only behind the bucket's back, also from the verif hook inside
 // storageos' Close), every helper, plain and atomic, every position of multi-object copies,
 // second Close, the generated-file flush.
+//
+// Part E (preexist.go) — PRE-EXISTING DESTINATIONS: every helper of parts A / B / X writes into a
+// destination that already holds longer / shorter / equal-length / identical / empty content,
+// fault-free and with wrapper faults and real close(2)/write(2) failures: a helper that returns
+// nil leaves exactly the new content in every object it wrote.
 package main
 
 import (
@@ -277,6 +282,7 @@ type opCase struct {
 	par      int     // parallelism for copy
 	atomic   bool
 	destDisk bool
+	old      []bk.KV // previous content of the destination (part E, preexist.go); nil: a fresh destination
 }
 
 func (c opCase) describe() map[string]any {
@@ -339,6 +345,9 @@ func (c opCase) runKind(faults []prim, tmp string, k *errKind) (err error, fb *f
 		dest = d
 	} else {
 		dest = storagemem.NewReadWriteBucket()
+	}
+	for _, o := range c.old {
+		must(bk.PutString(ctx, dest, o.K, o.V))
 	}
 	fb = newFaulty(dest, faults)
 	if k != nil {
@@ -1470,6 +1479,11 @@ func main() {
 	tmpRoot, err := os.MkdirTemp("", "verif-c15-")
 	must(err)
 	defer os.RemoveAll(tmpRoot)
+	if run.Only >= peOnlyBase {
+		partPreexist(run, r.Fork(11), tmpRoot)
+		run.Finish()
+		return
+	}
 	if run.Only >= rcOnlyBase {
 		partRealClose(run, r.Fork(10), tmpRoot)
 		run.Finish()
@@ -1486,6 +1500,7 @@ func main() {
 	partWalk(run, r.Fork(8), tmpRoot)
 	partReal(run, r.Fork(9), tmpRoot)
 	partRealClose(run, r.Fork(10), tmpRoot)
+	partPreexist(run, r.Fork(11), tmpRoot)
 	run.Finish()
 }
 
